@@ -57,6 +57,14 @@ def run(ctx: Ctx):
         for s in sites:
             if s.func not in funcs:
                 funcs.append(s.func)
+        # properties / methods of the class that hand out the counter: reading one of them is
+        # reading the counter
+        readers = {SEQ}
+        for h in g.all_funcs:
+            if h.name != "__init__" and h not in funcs and any(
+                    isinstance(n, ast.Attribute) and n.attr == SEQ and isinstance(n.ctx, ast.Load)
+                    and A.dotted(n.value) == "self" for n in A.walk_no_nested(h.node)):
+                readers.add(h.name)
         for f in funcs:
             ctx.use(f)
             cons = f"{f.qualname}:counter-critical-section"
@@ -87,7 +95,7 @@ def run(ctx: Ctx):
                 continue
             # every load of the counter in the function is under the same lock
             for n in A.walk_no_nested(f.node):
-                if isinstance(n, ast.Attribute) and n.attr == SEQ and isinstance(n.ctx, ast.Load) \
+                if isinstance(n, ast.Attribute) and n.attr in readers and isinstance(n.ctx, ast.Load) \
                         and A.dotted(n.value) == "self":
                     if f"self.{lock_used}" not in held_locks(f, n):
                         # allowed only if the whole function is call-site protected
@@ -108,8 +116,8 @@ def run(ctx: Ctx):
             cons = f"{h.qualname}:counter-critical-section"
             ctx.inst(cons)
             for n in A.walk_no_nested(h.node):
-                if isinstance(n, ast.Attribute) and n.attr == SEQ and isinstance(n.ctx, ast.Load) \
-                        and A.dotted(n.value) == "self":
+                if isinstance(n, ast.Attribute) and n.attr in (readers - {h.name}) \
+                        and isinstance(n.ctx, ast.Load) and A.dotted(n.value) == "self":
                     held = held_locks(h, n)
                     if not any(f"self.{lk}" in held for lk in locks):
                         ctx.fail(cons, f"{h.module.relpath}:{n.lineno}",
